@@ -2,7 +2,7 @@
   C02 helper lemmas, part 5: TWO accepting runs of `Fri.verify` on the same queries, the same input
   values and the same FRI commitment, with different layer witnesses.  The fold step is a
   deterministic function of the query list and of the witness leaves it consumes
-  (`rowOf_two`, `rows_two`), the rows it hands to the table decommitment are bound by the layer's
+  (`rowOf_two`, `friRows_two`), the rows it hands to the table decommitment are bound by the layer's
   commitment (`table_two_openings`), hence layer by layer: same coset indices, same rows (queried
   values AND consumed witness leaves), same next-layer queries, same consumed leaves, same
   consumed authentication nodes — or an explicit collision.
